@@ -1404,3 +1404,35 @@ func nodeWithin(root, m syntax.Node) bool {
 	})
 	return found
 }
+
+type subnode struct {
+	mode string
+	node syntax.Node
+}
+
+// subnodesOf lists every Stmt, every Stmt.Cmd and every CallExpr argument word, in Walk order.
+func subnodesOf(f *syntax.File) []subnode {
+	var out []subnode
+	ns, nc, nw := 0, 0, 0
+	safely(func() {
+		syntax.Walk(f, func(n syntax.Node) bool {
+			switch n := n.(type) {
+			case *syntax.Stmt:
+				out = append(out, subnode{fmt.Sprintf("stmt#%d", ns), n})
+				ns++
+				if n.Cmd != nil {
+					out = append(out, subnode{fmt.Sprintf("cmd#%d", nc), n.Cmd})
+					nc++
+				}
+			case *syntax.CallExpr:
+				for _, w := range n.Args {
+					out = append(out, subnode{fmt.Sprintf("word#%d", nw), w})
+					nw++
+				}
+			}
+			return true
+		})
+	})
+	return out
+}
+
